@@ -294,9 +294,9 @@ Predefined units:
 ====== ========================= =============================
 Symbol Name                      Equivalents
 ====== ========================= =============================
-°C     Degree Celsius            0 °C = 32 °F = 273,25 K
+°C     Degree Celsius            0 °C = 32 °F = 273.15 K
 °F     Degree Fahrenheit         0 °F ≅ -17.778 °C ≅ 255.372 K
-K      Kelvin                    0 K = -273,25 °C = -459.67 °F
+K      Kelvin                    0 K = -273.15 °C = -459.67 °F
 ====== ========================= =============================
 
 Temperature units are converted using the following formulas:
